@@ -21,6 +21,7 @@ import (
 	"github.com/primevprotocol/mev-commit/pkg/keysigner"
 	"time"
 
+	"github.com/ethereum/go-ethereum/accounts/keystore"
 	"github.com/ethereum/go-ethereum/crypto"
 	libp2pcrypto "github.com/libp2p/go-libp2p/core/crypto"
 	"github.com/libp2p/go-libp2p/core/peer"
@@ -162,6 +163,10 @@ type c18In struct {
 	// by another key after the signer was created and before the Service is started (the node keeps
 	// signing with the key it loaded; its transport identity must be that key's too)
 	FileSigner bool `json:"file_signer,omitempty"`
+	// via_new: the key lives in an encrypted keystore (the node's other signer); the signer is long-
+	// lived: the p2p service is built from it, closed, and built from it again (restart of the
+	// service inside the process, a retry after a failed start) — what is reported is the second one
+	Keystore bool `json:"keystore,omitempty"`
 }
 type c18Obs struct {
 	Pad      string `json:"pad"`
@@ -235,6 +240,42 @@ func c18Run(in c18In) (obs c18Obs) {
 			}
 			ks = pks
 		}
+		if in.Keystore {
+			dir, err := os.MkdirTemp("", "verif-c18ks-")
+			if err != nil {
+				obs.Err = "tmp"
+				return obs
+			}
+			defer os.RemoveAll(dir)
+			cp := c18Key(new(big.Int).Set(d))
+			if _, err := keystore.NewKeyStore(dir, keystore.LightScryptN, keystore.LightScryptP).ImportECDSA(cp, "pw"); err != nil {
+				obs.Err = "keystore-import"
+				return obs
+			}
+			kss, err := keysigner.NewKeystoreSigner(dir, "pw")
+			if err != nil {
+				obs.Err = "keystore"
+				return obs
+			}
+			if kss.GetAddress() != crypto.PubkeyToAddress(priv.PublicKey) {
+				obs.Err = "keystore-address"
+				return obs
+			}
+			ks = kss
+			first, err := New(&Options{KeySigner: ks, Secret: "verif", ListenPort: 0, ListenAddr: "127.0.0.1", PeerType: p2p.PeerTypeBidder,
+				Logger: util.NewTestLogger(discard{})})
+			if err != nil {
+				obs.Err = "new-first"
+				return obs
+			}
+			firstID := first.host.ID()
+			first.Close()
+			defer func() {
+				if obs.Err == "" && obs.NewID != hex.EncodeToString([]byte(firstID)) {
+					obs.Err = "second-service-has-another-identity"
+				}
+			}()
+		}
 		svc, err := New(&Options{KeySigner: ks, Secret: "verif", ListenPort: 0, ListenAddr: "127.0.0.1", PeerType: p2p.PeerTypeBidder,
 			Logger: util.NewTestLogger(discard{})})
 		if err != nil {
@@ -282,6 +323,19 @@ func TestVerifC18(t *testing.T) {
 		}
 		in := mk("file-signer-key-file-replaced", d, true)
 		in.FileSigner = true
+		out.emit(in, c18Run(in))
+	}
+	for k := 0; k < vcount(2, 12); k++ {
+		b := rng.bytes(32 - k%4)
+		if b[0] == 0 {
+			b[0] = 1
+		}
+		d := new(big.Int).SetBytes(b)
+		if d.Cmp(n) >= 0 {
+			continue
+		}
+		in := mk("keystore-signer-second-service", d, true)
+		in.Keystore = true
 		out.emit(in, c18Run(in))
 	}
 	per := vcount(6, 60)
